@@ -1,6 +1,7 @@
 package main
 
 import (
+	"sync"
 	"bufio"
 	"encoding/hex"
 	"fmt"
@@ -218,6 +219,48 @@ func runAlias(path string) {
 				fmt.Fprintf(out, "results %d\n", len(res.Results))
 				for _, r := range res.Results {
 					hold(site, r.ID, r.Metadata, nil)
+				}
+			case "psearch":
+				// psearch <K> <R bits> <exact 0|1> <q bits>...: the same search issued by two callers at the same moment,
+				// many times; what one caller is handed must not share memory with what the other is handed
+				args := syz.SearchArgs{K: int(u(f[1])), Radius: math.Float64frombits(u(f[2]))}
+				if f[3] == "1" {
+					args.Precision = "exact"
+				}
+				for _, s := range f[4:] {
+					args.Vector = append(args.Vector, math.Float64frombits(u(s)))
+				}
+				shared := 0
+				var keep []syz.SearchResult
+				for trial := 0; trial < 40 && shared == 0; trial++ {
+					var r [2]syz.SearchResults
+					var wg sync.WaitGroup
+					gate := make(chan struct{})
+					for g := 0; g < 2; g++ {
+						wg.Add(1)
+						go func(g int) {
+							defer wg.Done()
+							a := args
+							a.Vector = append([]float64{}, args.Vector...)
+							<-gate
+							r[g] = c.Search(a)
+						}(g)
+					}
+					close(gate)
+					wg.Wait()
+					for _, x := range r[0].Results {
+						for _, y := range r[1].Results {
+							if sameBacking(x.Metadata, y.Metadata) {
+								shared = 1
+							}
+						}
+					}
+					keep = r[0].Results
+				}
+				fmt.Fprintf(out, "pshared %d\n", shared)
+				fmt.Fprintf(out, "results %d\n", len(keep))
+				for _, x := range keep {
+					hold("psearch", x.ID, x.Metadata, nil)
 				}
 			case "list":
 				res := c.Search(syz.SearchArgs{Offset: int(u(f[1])), Limit: int(u(f[2]))})
